@@ -161,6 +161,8 @@ func (c *context) collectPackageInputs(m *manifestBuilder, pkg *aPackage) error 
 		return fmt.Errorf("list sfiles: %w", err)
 	}
 	otherFiles = append(otherFiles, sfiles...)
+	// Files matched by //go:embed patterns: their bytes are compiled into the package.
+	otherFiles = append(otherFiles, p.EmbedFiles...)
 	if len(otherFiles) > 0 {
 		otherList, err := digestFilesWithOverlay(otherFiles, c.conf.Overlay)
 		if err != nil {
